@@ -47,12 +47,18 @@ macro_rules! bodies {
                 let want = f64::from(p);
                 Outcome::eq(calls as u64, 1).and(if want.is_nan() { Outcome::cond(f64::from_bits(bits).is_nan()) } else { Outcome::eq(bits, want.to_bits()) })
             } else {
-                // native: the real text round trip
-                let txt = format!("{}", p);
-                match txt.parse::<$P>() {
-                    Ok(q) => Outcome::eq(q.to_bits() as u64, x as u64),
-                    Err(_) => Outcome::cond(false),
+                // native: the real text round trip, for the pattern and two neighbours that need every fraction bit
+                let mut out = Outcome::cond(true);
+                for xx in [x, x | 1, x ^ 0x0f] {
+                    let pp = <$P>::from_bits(xx);
+                    let txt = format!("{}", pp);
+                    let o = match txt.parse::<$P>() {
+                        Ok(q) => Outcome::eq(q.to_bits() as u64, xx as u64),
+                        Err(_) => Outcome::cond(false),
+                    };
+                    out = out.and(o);
                 }
+                out
             }
         }
         /// FromStr returns From<f64> of exactly what the f64 parser returned (f64 FromStr stubbed)
@@ -66,13 +72,21 @@ macro_rules! bodies {
                     Err(_) => Outcome::cond(false),
                 }
             } else {
-                let x = s.$draw();
-                let p = <$P>::from_bits(x);
-                let txt = format!("{}", p);
-                match txt.parse::<$P>() {
-                    Ok(q) => Outcome::eq(q.to_bits() as u64, x as u64),
-                    Err(_) => Outcome::cond(false),
+                // native: the f64 the (stubbed) parser returned under Kani goes through the REAL text path:
+                // std prints it, the crate's FromStr parses it, and the result must be From<f64> of it. The
+                // value and two neighbours that need the full f64 mantissa are tried.
+                let b = s.u64();
+                let mut out = Outcome::cond(true);
+                for f in [b, b | 1, b ^ 0x000f_ffff_ffff_fffe] {
+                    let v = f64::from_bits(f);
+                    let txt = format!("{}", v);
+                    let o = match txt.parse::<$P>() {
+                        Ok(q) => Outcome::eq(q.to_bits() as u64, <$P>::from(v).to_bits() as u64),
+                        Err(_) => Outcome::cond(false),
+                    };
+                    out = out.and(o);
                 }
+                out
             }
         }
     };
